@@ -801,6 +801,9 @@ func (interp *Interpreter) cfg(root *node, sc *scope, importPath, pkgName string
 					dest.gen = nop
 				case isFuncField(dest):
 					// Setting a struct field of function type requires an extra step. Do not optimize.
+				case dest.rval.IsValid() && src.kind != basicLit:
+					// The destination is a variable of a binary package, which has no location
+					// in the frame where the source could store its result. Do not optimize.
 				case n.nleft > 1 && (isCall(src) || src.action == aRecv || src.action == aCompositeLit):
 					// Do not skip assign operation in a multiple assignment: it is the only
 					// operation for all pairs, and all sources must be read before assigning.
